@@ -127,7 +127,14 @@ class NodeValidator():
         #print()
         #print(f"validate_node {node} {path} {roles} {problems}")
 
-        if not node or not isinstance(node, dict):
+        """
+        Only JSON objects play roles. A value that has been given roles (e.g.
+        a member of "States", which "is a State") but is not an object is a
+        problem in its own right rather than something to skip silently,
+        and an empty object must still be checked for its required fields.
+        """
+        if not isinstance(node, dict):
+            problems.append(f'{path} should be an object')
             return
 
         # May have more roles based on field presence/value etc
